@@ -49,6 +49,9 @@ pub enum Op {
     CloneSwap,
     SerdeSwap,
     TouchMut,
+    /// `as_triangulation_mut().repair_local_facet_issues` with a fabricated report that names the three cells as
+    /// over-sharing one facet (the repair keeps the two best-shaped cells and removes the third)
+    RepairLocalFacets { a: usize, b: usize, c: usize },
 }
 
 pub fn vp_of(i: u8) -> ValidationPolicy {
@@ -259,6 +262,19 @@ where
         Op::TouchMut => {
             let _ = dt.as_triangulation_mut();
             Outcome::Ok { class: "Touched".into(), key: None, detail: String::new() }
+        }
+        Op::RepairLocalFacets { a, b, c } => {
+            let (Some(ka), Some(kb), Some(kc)) = (nth_cell(dt, *a), nth_cell(dt, *b), nth_cell(dt, *c)) else { return Outcome::Err { class: "NoSuchCell".into(), dbg: String::new() } };
+            let mut issues = delaunay::core::collections::FacetIssuesMap::default();
+            let mut buf = delaunay::core::collections::SmallBuffer::new();
+            for k in [ka, kb, kc] {
+                buf.push((k, 0u8));
+            }
+            issues.insert(0x5eed_u64, buf);
+            match dt.as_triangulation_mut().repair_local_facet_issues(&issues) {
+                Ok(n) => Outcome::Ok { class: "LocalFacetRepair".into(), key: None, detail: format!("{n}") },
+                Err(e) => Outcome::Err { class: variant_name(&e), dbg: dbg_of(&e) },
+            }
         }
     }
 }
